@@ -9,6 +9,7 @@ from vstat.dataflow import rd_of
 from vstat.sigs import bind
 from vstat import algebra
 from .chain import check_chain, model_attr, column_stores
+from .ctor import ctor_stores
 
 CONT = "virocon.contours"
 EXPL = ("IDX/FLOW/FORM/TS rules on IFORMContour._compute, ISORMContour._compute and NSphere: C01.beta (beta = Phi^-1(1-alpha) / "
@@ -199,6 +200,9 @@ def run(prog, rep):
         if kind == "iform":
             tm_rule(prog, rep, fn, b, pmat)
     nsphere(prog, rep)
+    for cls in ("IFORMContour", "ISORMContour"):
+        ctor_stores(prog, rep, "C01.ctor", f"{CONT}.{cls}", ["model", "alpha", "n_points"])
+    rep.expect_min("C01.ctor", 4)
     rep.expect_min("C01.beta", 2)
     rep.expect_min("C01.sphere", 4)
     rep.expect_min("C01.chain", 9)
